@@ -4,6 +4,7 @@ import (
 	"fmt"
 	"go/token"
 	"go/types"
+	"sort"
 	"strings"
 
 	"golang.org/x/tools/go/ssa"
@@ -60,6 +61,8 @@ type Env struct {
 	preferResolve bool
 	shadowable    map[string]bool
 	inOld         bool
+	// key functions (keyfn) of a callee, instantiated for one call site: name -> SMT function symbol
+	fnAlias map[string]string
 }
 
 // readWF records that value v of type t was read from the heap in state env.st.
@@ -875,6 +878,36 @@ func (env *Env) evalCall(n *Call) (TV, error) {
 				}
 			}
 		}
+		// an interface method that this unit invokes somewhere (but not on this path): the types come from the method's signature
+		if strings.HasPrefix(full, "iface:") && env.fx != nil {
+			if sc := e.P.Contracts.Funcs[full]; sc != nil {
+				if sig := findInvoke(env.fx.fn, full, map[*ssa.Function]bool{}); sig != nil {
+					want := flattenName(n.Args[1])
+					var ty types.Type
+					if pfx == "arg:" {
+						// contract parameters: (recv, p0, p1, ...)
+						for i := 0; i < sig.Params().Len() && i+1 < len(sc.Params); i++ {
+							if sc.Params[i+1] == want {
+								ty = sig.Params().At(i).Type()
+							}
+						}
+					} else {
+						for i := 0; i < sig.Results().Len() && i < len(sc.Returns); i++ {
+							if sc.Returns[i] == want {
+								ty = sig.Results().At(i).Type()
+							}
+						}
+					}
+					if ty != nil {
+						e.famSort["ghost:"+gk] = e.S.sortOf(ty)
+						e.ghostTy[gk] = ty
+						t := e.declare("ghost:"+gk, e.S.sortOf(ty))
+						e.ghostEntry[gk] = t
+						return TV{t, ty}, nil
+					}
+				}
+			}
+		}
 		// an external function that this unit calls somewhere (but not on this path): the types come from the callee's signature
 		if strings.HasPrefix(full, "extern:") && env.fx != nil {
 			if sc := e.P.Contracts.Funcs[full]; sc != nil {
@@ -988,6 +1021,9 @@ func (env *Env) evalCall(n *Call) (TV, error) {
 	args, err := env.evalArgs(n.Args)
 	if err != nil {
 		return TV{}, err
+	}
+	if sym, ok := env.fnAlias[n.Fn]; ok && len(args) == 1 {
+		return TV{fmt.Sprintf("(%s %s)", sym, args[0].T), tyInt}, nil
 	}
 	if e.ghostFns[n.Fn] && len(args) == 1 {
 		if e.ghostFnAny[n.Fn] {
@@ -1105,6 +1141,31 @@ func (env *Env) evalCall(n *Call) (TV, error) {
 		return TV{and(fmt.Sprintf("((_ is VRef) %s)", args[0].T), or(alts...)), tyBool}, nil
 	case "isnil":
 		return TV{fmt.Sprintf("((_ is VNil) %s)", args[0].T), tyBool}, nil
+	case "locked", "wlocked":
+		// locked(p): the mutex embedded in (or a field of) the struct p points to is held - read or write - by this
+		// activation (ghost lock state of lock.go); wlocked(p): held for writing
+		if err := need(1); err != nil {
+			return TV{}, err
+		}
+		pt, ok := args[0].Ty.(types.Type)
+		if !ok {
+			return TV{}, fmt.Errorf("%s: not a pointer to a struct", n.Fn)
+		}
+		ptr, ok := pt.Underlying().(*types.Pointer)
+		if !ok {
+			return TV{}, fmt.Errorf("%s: not a pointer to a struct", n.Fn)
+		}
+		key := famPtr(ptr.Elem()) + "|" + string(args[0].T) + "|"
+		get := func(kind string) Term {
+			if t, ok := env.st.ghost["lk:"+kind+":"+key]; ok {
+				return t
+			}
+			return "0"
+		}
+		if n.Fn == "wlocked" {
+			return TV{fmt.Sprintf("(> %s 0)", get("w")), tyBool}, nil
+		}
+		return TV{fmt.Sprintf("(or (> %s 0) (> %s 0))", get("w"), get("r")), tyBool}, nil
 	case "plain":
 		// plain(err): an error value whose Error() method is total (errors.New, fmt.Errorf and the
 		// errors of the standard library; NOT a goja exception, whose Error() may panic)
@@ -1245,6 +1306,58 @@ func (e *enc) findStaticCallee(fn *ssa.Function, key string, seen map[*ssa.Funct
 	}
 	for _, a := range fn.AnonFuncs {
 		if r := e.findStaticCallee(a, key, seen); r != nil {
+			return r
+		}
+	}
+	return nil
+}
+
+// loopRangeKey: the key type of the map ranged over by the loop with the given ordinal of fn (loops are numbered by header
+// block index, as in findLoops); nil if that loop is not a map range.
+func loopRangeKey(fn *ssa.Function, ordinal int) types.Type {
+	var hs []*ssa.BasicBlock
+	seen := map[*ssa.BasicBlock]bool{}
+	for _, b := range fn.Blocks {
+		for _, s := range b.Succs {
+			if s.Dominates(b) && !seen[s] {
+				seen[s] = true
+				hs = append(hs, s)
+			}
+		}
+	}
+	sort.Slice(hs, func(i, j int) bool { return hs[i].Index < hs[j].Index })
+	if ordinal < 0 || ordinal >= len(hs) {
+		return nil
+	}
+	for _, in := range hs[ordinal].Instrs {
+		if nx, ok := in.(*ssa.Next); ok {
+			if rg, ok := nx.Iter.(*ssa.Range); ok {
+				if mt, ok := rg.X.Type().Underlying().(*types.Map); ok {
+					return mt.Key()
+				}
+			}
+		}
+	}
+	return nil
+}
+
+// findInvoke: the signature of the interface method with contract key `key` that fn (or one of its closures) invokes, if any.
+func findInvoke(fn *ssa.Function, key string, seen map[*ssa.Function]bool) *types.Signature {
+	if fn == nil || seen[fn] {
+		return nil
+	}
+	seen[fn] = true
+	for _, b := range fn.Blocks {
+		for _, in := range b.Instrs {
+			if c, ok := in.(ssa.CallInstruction); ok {
+				if com := c.Common(); com.IsInvoke() && ifaceKey(com) == key {
+					return com.Signature()
+				}
+			}
+		}
+	}
+	for _, a := range fn.AnonFuncs {
+		if r := findInvoke(a, key, seen); r != nil {
 			return r
 		}
 	}
